@@ -1,6 +1,7 @@
 package mocrelay_test
 
 import (
+	"fmt"
 	"math/rand/v2"
 	"strings"
 
@@ -88,6 +89,54 @@ func c11BadHex(r *rand.Rand, good string) (string, string) {
 		return good[:p] + "é" + good[p+2:], "nonhex-multibyte-same-byte-length"
 	default:
 		return good[:p] + "\x00" + good[p+1:], "nonhex-nul"
+	}
+}
+
+// non-ASCII runes by encoded size; the first entries of each row have a low byte that is
+// an ASCII hex digit (U+0161 -> 0x61 'a', U+0130 -> '0', ...), the kind of rune a
+// byte-indexed or truncating hex test lets through.
+var c11HexLookalikes = [][]rune{
+	2: {0x0161, 0x0130, 0x0266, 0x0439, 0x0165, 0x00e9, 0x00df, 0x0416},
+	3: {0x3061, 0x4e30, 0x2166, 0x3039, 0xff10, 0x3042, 0x20ac, 0xff41},
+	4: {0x1f630, 0x1f461, 0x10366, 0x1f939, 0x1f600, 0x10000, 0x2f800},
+}
+
+// c11BadHexUnicode puts non-ASCII runes into a well-formed hex string, keeping either
+// the BYTE length or the RUNE count at the required value.
+func c11BadHexUnicode(r *rand.Rand, good string) (string, string) {
+	n := len(good)
+	size := 2 + r.IntN(3)
+	pool := c11HexLookalikes[size]
+	ix := r.IntN(len(pool))
+	c := string(pool[ix])
+	look := "other-low-byte"
+	if ix < 4 {
+		look = "hex-low-byte"
+	}
+	where := r.IntN(3)
+	wname := []string{"start", "middle", "end"}[where]
+	switch r.IntN(6) {
+	case 0, 1, 2: // byte length kept: the rune takes the place of `size` hex digits
+		p := []int{0, 1 + r.IntN(n-size-1), n - size}[where]
+		out := good[:p] + c + good[p+size:]
+		if r.IntN(4) == 0 { // a second rune at the other end
+			c2 := string(vk.Pick(r, c11HexLookalikes[2]))
+			if where == 0 {
+				out = out[:n-2] + c2
+			} else {
+				out = c2 + out[2:]
+			}
+			wname += "+second"
+		}
+		return out, fmt.Sprintf("bytes-kept/%d-byte-rune/%s/%s", size, wname, look)
+	case 3, 4: // rune count kept: the rune takes the place of one hex digit
+		p := []int{0, 1 + r.IntN(n-2), n - 1}[where]
+		return good[:p] + c + good[p+1:], fmt.Sprintf("runes-kept/%d-byte-rune/%s/%s", size, wname, look)
+	default: // nothing but such runes
+		if r.IntN(2) == 0 {
+			return strings.Repeat(c, n/size) + good[:n%size], fmt.Sprintf("bytes-kept/all-%d-byte-runes/%s", size, look)
+		}
+		return strings.Repeat(c, n), fmt.Sprintf("runes-kept/all-%d-byte-runes/%s", size, look)
 	}
 }
 
@@ -282,6 +331,14 @@ func c11Catalogue() []c11Class {
 			return d
 		})
 	}
+	for _, k := range []string{"id", "pubkey", "sig"} {
+		k := k
+		add("event/hex-unicode-"+k, 'E', func(r *rand.Rand, m *c11Msg) string {
+			s, d := c11BadHexUnicode(r, m.event.get(k).s)
+			m.event.put(k, c11S(s))
+			return d
+		})
+	}
 	add("event/kind-range", 'E', func(r *rand.Rand, m *c11Msg) string {
 		k := vk.Pick(r, c11BadKinds)
 		m.event.put("kind", c11Num(k))
@@ -320,6 +377,12 @@ func c11Catalogue() []c11Class {
 		add(cl+"-hex", 'F', func(r *rand.Rand, m *c11Msg) string {
 			l := c11EnsureList(r, c11PickFilter(r, m), k, hexgen(r))
 			s, d := c11BadHex(r, c11Hex(r, 64))
+			c11SetElem(r, l, c11S(s))
+			return d
+		})
+		add(cl+"-hex-unicode", 'F', func(r *rand.Rand, m *c11Msg) string {
+			l := c11EnsureList(r, c11PickFilter(r, m), k, hexgen(r))
+			s, d := c11BadHexUnicode(r, c11Hex(r, 64))
 			c11SetElem(r, l, c11S(s))
 			return d
 		})
@@ -443,6 +506,12 @@ func c11Catalogue() []c11Class {
 		l := c11EnsureList(r, c11PickFilter(r, m), k, func() *c11N { return c11S(vk.HostileString(r, 6)) })
 		n, d := c11Wrong(r, "s")
 		c11SetElem(r, l, n)
+		return d
+	})
+	add("filter/a-pubkey-unicode", 'F', func(r *rand.Rand, m *c11Msg) string {
+		l := c11EnsureList(r, c11PickFilter(r, m), "#a", func() *c11N { return c11S(c11Addr(r)) })
+		bad, d := c11BadHexUnicode(r, c11Hex(r, 64))
+		c11SetElem(r, l, c11S(fmt.Sprintf("%d:%s:%s", c11Kind(r), bad, c11D(r))))
 		return d
 	})
 	add("filter/a-malformed", 'F', func(r *rand.Rand, m *c11Msg) string {
